@@ -77,7 +77,7 @@ CHECKS = {
    technique='TLA+ exit-status machine model-checked by TLC + replay of TLC-enumerated input sequences on the real command + TLC trace validation of Model.errors'),
  'C20': dict(engine='cli', design='5 C20, 4.11',
    text='Cli.tla decodes an option record into an argument vector and the documented stage list (order, model and key functions each stage must receive, separators, exit status); TLC checks stage order, model-everywhere, exactly one layout stage and formatting-last over the whole option space (MC_CliOpts) and exports every option set with its plan; a seeded sample is replayed: the harness executes the exported plan with library calls and runs the real command (in-process main(), stdin or 1-2 files, 4% real subprocesses); TLC judges byte equality, exit status, one output per input graph, content invariance under formatting options, content preservation without normalisation options and the fixed-point clause. Every option set within two option values of the empty one over the full value space (Cli!NearDefault) is replayed in both tiers; with --check the texts are compared without the error-N metadata lines and the offending triples those lines name per graph as sets.',
-   note='stage semantics are the library functions (covered by their own properties); F17, F19, F23 and F24 are open known findings with specification predicates as signatures; the fixed-point clause is judged on single-stream runs; random keys: exit status only',
+   note='stage semantics are the library functions (covered by their own properties); F17, F19, F23, F24 and F26 are open known findings with specification predicates as signatures; the fixed-point clause is judged on single-stream runs; random keys: exit status only',
    technique='TLA+ model of option decoding and pipeline plumbing model-checked by TLC + spec-to-code replay of exported plans, judged by TLC'),
  'C09': dict(engine='stream', design='5 C09, 4.10',
    text='Stream.tla defines the containers (one string, lines without / with terminators, a text-mode file) as feeders of the same lexer/parser and the stream grammar (COMMENT* Node)*; TLC checks that every text up to a bound over an alphabet with LF, CR, NEL, VT, comments and node syntax has the same outcome in every container, that only LF/CRLF/CR end lines, and that sequences of trees written with every separator (and to a file) read back equal with comments attached to the following graph (MC_Stream); the real loads / load / iterdecode / iterparse on strings, line lists, StringIO and real files, and dumps / dump round trips, are judged by TLC against the specification outcome. Long streams are judged text by text (the reading of a stream is the concatenation of the readings of its graph texts) with line ends, CR LF pairs and graph ends placed on, before and after the block sizes of buffered file reading; dump / load on two paths is a TLA+ state machine (MC_File: read-your-last-write, other path untouched) whose histories are replayed on real files (path, pathlib.Path, open file).',
